@@ -405,6 +405,7 @@ public:
         self->last_writes = writes_performed_;
     }
     bool is_released() const { return released_.load(); }
+    std::size_t script_fired() const { return script_pos_; } // scripted switches consumed in the last run
     std::size_t yields_of(std::size_t worker) const { return workers_[worker]->lt.yields; }
 
 private:
